@@ -7,7 +7,7 @@ if ! git diff --quiet; then echo "/repo is dirty"; exit 2; fi
 git apply "$patch" || { echo "patch does not apply"; exit 2; }
 # evidence written while the seeded change is applied must not survive
 rm -rf /verif/.work/evidence.bak; cp -r /verif/evidence /verif/.work/evidence.bak
-trap 'git -C /repo checkout -- . ; rm -f /verif/.work/stamp.json; rm -rf /verif/evidence; mv /verif/.work/evidence.bak /verif/evidence' EXIT
+trap 'git -C /repo checkout -- . ; git -C /repo clean -fdq ; rm -f /verif/.work/stamp.json; rm -rf /verif/evidence; mv /verif/.work/evidence.bak /verif/evidence' EXIT
 cd /verif
 for p in "$@"; do
   out=$(VERIF_SEED=${VERIF_SEED:-1} ./bin/check $p ${TIER:-quick} 2>&1)
